@@ -406,6 +406,9 @@ def _install_where(it):
         except Signal:
             raise
         except Exception as exc:
+            if getattr(exc, "_symex_bind", False):
+                exc._symex_bind = False  # argument binding failed: attribute it to the caller
+                raise
             if getattr(exc, "_symex_where", None) is None and not isinstance(fn, Closure):
                 try:
                     exc._symex_where = fn.__qualname__
